@@ -59,6 +59,8 @@ SpellTab ==
   @@ "atevil"    :> S("h0.test@evil.test", "evil.test", "ok")    \* h0 is only the userinfo
   @@ "atevil2"   :> S("h0.test:80@evil.test", "evil.test", "ok")
   @@ "evilsub"   :> S("h0.test.a.evil.test:80", "h0.test.a.evil.test", "ok")
+  @@ "trunc"     :> S("a.h0.te", "a.h0.te", "ok")                \* the sub-domain's name cut to the length of h0
+  @@ "truncsub"  :> S("x.a.h0.te", "x.a.h0.te", "ok")
   @@ "parent"    :> S("test", "test", "ok")
   @@ "other"     :> S("other.test", "other.test", "ok")
   @@ "ip6"       :> S("[::1]", "::1", "ok")
@@ -240,7 +242,13 @@ AllOrigins == {"setters", "wire", "server"}
 SetterOrigin == {"setters"}
 \* reduced menus (exhaustive two-hop chains; quick model check)
 KeyInits == {"same", "upport", "sub", "ip6"}
-KeyTargets == {"same", "port", "sub", "subsub", "prefix", "suffix", "atevil", "other", "ip6port", "ip6look", "pctdot"}
+KeyTargets == {"same", "port", "sub", "subsub", "prefix", "suffix", "atevil", "other", "ip6port", "ip6look", "pctdot", "trunc"}
+\* chains that leave through a trusted (sub)domain to look-alikes of the names seen along the chain:
+\* the trust decision of EVERY hop is against the initial host
+ChainTargets == {"same", "upport", "sub", "subup", "subsub", "trunc", "truncsub", "prefix", "other"}
+ChainStatuses == {302, 307}
+ChainForms == {"abs", "noscheme"}
+ChainMethods == {"GET"}
 KeyStatuses == {302, 303, 307}
 KeyForms == {"abs", "noscheme", "rel"}
 KeyMethods == {"GET", "POST"}
